@@ -157,12 +157,9 @@ IPv4Reassembler::key_type IPv4Reassembler::make_key(const IP* ip) const {
 }
 
 IPv4Reassembler::address_pair IPv4Reassembler::make_address_pair(IPv4Address addr1, IPv4Address addr2) const {
-    if (addr1 < addr2) {
-        return make_pair(addr1, addr2);
-    }
-    else {
-        return make_pair(addr2, addr1);
-    }
+    // A datagram is identified by (id, source, destination): A->B and B->A are different
+    // datagrams even when they carry the same identification (RFC 791, section 3.2)
+    return make_pair(addr1, addr2);
 }
 
 void IPv4Reassembler::clear_streams() {
